@@ -373,3 +373,379 @@ Proof.
   - nc.
 Qed.
 Print Assumptions values_header_top.
+
+(* ---------------------------------------------------------------- field segments: the loop body *)
+
+Definition vstep (res : list (string * pv)) (a : string) : list (string * pv) :=
+  if contains "=" a then
+    let b := split_on "=" a in
+    match b with
+    | b0 :: b1 :: _ =>
+        if Nat.ltb 0 (String.length (py_strip (remove_char "," (mass_replace b1)))) then
+          if contains "<" b1 && contains ">" b1 then vector_entries b0 b1 res
+          else upsert String.eqb (py_strip (mass_replace b0)) (PStr (py_strip (mass_replace b1))) res
+        else res
+    | _ => res
+    end
+  else res.
+
+Lemma vfo_else : forall o, no_char ";" o && negb (no_char ":" o) = false ->
+  values_from_outside o = Some (fold_left vstep (split_on ";" o) []).
+Proof. intros o H. unfold values_from_outside. rewrite H. reflexivity. Qed.
+
+Definition vec_step (k : string) (st : list (string * pv) * nat) (i : string) : list (string * pv) * nat :=
+  let i' := py_strip (remove_char "," (mass_replace i)) in
+  if Nat.ltb 0 (String.length i')
+  then (upsert String.eqb (mass_replace k ++ "_" ++ dec (snd st)) (PStr i') (fst st), S (snd st))
+  else st.
+
+Definition gc (c : ascii) : string :=
+  remove_char ")" (remove_char "(" (remove_char TAB (remove_char LF (remove_char ">" (repr_char SQ c))))).
+
+Lemma vect_flat : forall t,
+  remove_char ")" (remove_char "(" (remove_char TAB (remove_char LF (remove_char ">" (repr_body SQ t))))) = flat gc t.
+Proof. intro t. rewrite repr_flat, !remove_char_flat. reflexivity. Qed.
+
+Lemma vector_entries_eq : forall k b1 res,
+  vector_entries k (repr_body SQ b1) res = fst (fold_left (vec_step k) (split_on "<" (flat gc b1)) (res, 0)).
+Proof. intros. rewrite <- vect_flat. reflexivity. Qed.
+
+Lemma gc_track : forall c, alpha_char c = true -> track mass_pats (gc c) = true.
+Proof. intro c. enum c. Qed.
+Lemma gc_clean : forall c, alpha_char c = true -> clean_with mass_pats (gc c) = kc c.
+Proof. intro c. enum c. Qed.
+
+Lemma mass_G : forall x, allc alpha_char x = true -> mass_replace (flat gc x) = keepm x.
+Proof.
+  intros x H. unfold mass_replace. rewrite keepm_flat, (clean_flat mass_pats alpha_char _ _ gc_track H).
+  exact (flat_ext alpha_char _ _ _ gc_clean H).
+Qed.
+
+Lemma G_plain : forall x, allc plain_char x = true -> flat gc x = x.
+Proof. intros x H. apply (flat_id plain_char); [intro c; enum c | exact H]. Qed.
+
+Lemma contains1 : forall ch s, contains (String ch "") s = negb (no_char ch s).
+Proof.
+  intros ch s. induction s as [|y s IH]; [reflexivity|].
+  rewrite contains_cons, IH. cbn [prefixb no_char]. rewrite negb_andb, negb_involutive, andb_true_r.
+  f_equal. destruct (Ascii.eqb_spec ch y), (Ascii.eqb_spec y ch); congruence.
+Qed.
+
+Lemma nc_mid : forall ch a b, no_char ch (a ++ String ch b) = false.
+Proof. intros. rewrite no_char_app. cbn [no_char]. rewrite Ascii.eqb_refl. cbn [negb andb]. apply andb_false_r. Qed.
+
+Lemma repr_nc : forall (P : ascii -> bool) ch s, (forall c, P c = true -> no_char ch (repr_char SQ c) = true) -> allc P s = true ->
+  no_char ch (repr_body SQ s) = true.
+Proof. intros P ch s H Hs. rewrite repr_flat. exact (no_char_flat P ch _ _ H Hs). Qed.
+
+Lemma repr_has : forall ch, repr_char SQ ch = String ch "" -> forall x, no_char ch x = false -> no_char ch (repr_body SQ x) = false.
+Proof.
+  intros ch Hc x. induction x as [|c x IH]; intro H; [discriminate H|].
+  cbn [repr_body]. rewrite no_char_app. cbn [no_char] in H. destruct (Ascii.eqb c ch) eqn:E.
+  - apply Ascii.eqb_eq in E. subst c. rewrite Hc. cbn [no_char]. rewrite Ascii.eqb_refl. reflexivity.
+  - cbn [negb andb] in H. rewrite (IH H). apply andb_false_r.
+Qed.
+
+Ltac ncr :=
+  match goal with H : allc ?P ?s = true |- no_char ?ch (repr_body SQ ?s) = true =>
+    solve [apply (repr_nc P ch s); [let c := fresh "c" in intro c; enum c | exact H]] end.
+
+Lemma vstep_eq : forall acc wk rest, no_char "=" (repr_body SQ wk) = true -> no_char "=" (repr_body SQ rest) = true ->
+  vstep acc (repr_body SQ (wk ++ "=" ++ rest)) =
+  if Nat.ltb 0 (String.length (py_strip (remove_char "," (mass_replace (repr_body SQ rest))))) then
+    if contains "<" (repr_body SQ rest) && contains ">" (repr_body SQ rest)
+    then vector_entries (repr_body SQ wk) (repr_body SQ rest) acc
+    else upsert String.eqb (py_strip (mass_replace (repr_body SQ wk))) (PStr (py_strip (mass_replace (repr_body SQ rest)))) acc
+  else acc.
+Proof.
+  intros acc wk rest H1 H2. unfold vstep. rewrite !repr_body_app. change (repr_body SQ "=") with "=". cbn [append].
+  assert (E : contains "=" (repr_body SQ wk ++ String "=" (repr_body SQ rest)) = true) by (rewrite contains1, nc_mid; reflexivity).
+  rewrite E, split_on_app, !split_on_none by assumption. reflexivity.
+Qed.
+
+(* ---------------------------------------------------------------- the parts of a segment *)
+
+Definition wkc (c : ascii) : bool := wsc c || plain_char c.
+Definition valc (c : ascii) : bool := refc c || Ascii.eqb c DQ.
+
+Lemma allc_and : forall (P Q : ascii -> bool) s, allc P s = true -> allc Q s = true -> allc (fun c => P c && Q c) s = true.
+Proof.
+  induction s as [|c s IH]; intros H1 H2; [reflexivity|]. cbn [allc] in *. split_and.
+  rewrite IH by assumption. repeat match goal with H : _ = true |- _ => rewrite H end. reflexivity.
+Qed.
+
+Lemma wk_facts : forall ws k, wsok ws = true -> keyok k = true ->
+  allc wkc (ws ++ k) = true /\ mass_replace (repr_body SQ (ws ++ k)) = k /\ py_strip k = k.
+Proof.
+  intros ws k Hw Hk. rewrite wsok_allc in Hw. unfold keyok in Hk. split_and. rewrite plain_allc in *.
+  assert (Hwk : allc wkc (ws ++ k) = true) by cls.
+  split; [exact Hwk|]. split.
+  - rewrite mass_repr by (rewrite alpha_allc; cls). rewrite keepm_app, (keepm_plain k) by assumption.
+    rewrite keepm_flat, (flat_nil wsc kc ws); [reflexivity | intro c; enum c | assumption].
+  - apply strip_ns.
+    match goal with H1 : allc plain_char k = true, H2 : no_char SP k = true |- _ =>
+      rewrite no_char_allc in H2; pose proof (allc_and _ _ _ H1 H2) as H3 end.
+    revert H3. apply allc_imp. intro c. enum c.
+Qed.
+
+Lemma plain_not_dq : forall c, plain_char c = true -> Ascii.eqb c DQ = false.
+Proof. intro c. enum c. Qed.
+
+Lemma valok_cases : forall v, valok v = true ->
+  allc pqc v = true /\ keepm v = unq v /\ allc plain_char (unq v) = true /\ no_char "," (unq v) = true /\ py_strip (unq v) = unq v.
+Proof.
+  intros v H. unfold valok in H. apply orb_true_iff in H. destruct H as [H|H].
+  - unfold textok in H. split_and. rewrite plain_allc in *.
+    match goal with H : String.eqb _ _ = true |- _ => apply String.eqb_eq in H end.
+    assert (E : unq v = v).
+    { destruct v as [|c r]; [reflexivity|]. cbn [unq].
+      match goal with H : allc plain_char (String c r) = true |- _ => cbn [allc] in H; apply andb_true_iff in H; destruct H as [Hc _] end.
+      rewrite (plain_not_dq _ Hc). reflexivity. }
+    rewrite E. repeat split; try assumption; [cls | apply keepm_plain; assumption].
+  - unfold textok in H. split_and. rewrite plain_allc in *.
+    repeat match goal with H : String.eqb _ _ = true |- _ => apply String.eqb_eq in H end.
+    remember (unq v) as u eqn:Eu.
+    match goal with H : v = dq ++ u ++ dq |- _ => rename H into Hv end.
+    unfold dq in Hv. repeat split; try assumption.
+    + rewrite Hv. cls.
+    + rewrite Hv, !keepm_app, (keepm_plain u) by assumption. change (keepm (String DQ "")) with "". cbn [append]. apply sapp_nil_r.
+Qed.
+
+Lemma idok_parts : forall i, idok i = true ->
+  allc plain_char i = true /\ no_char "," i = true /\ py_strip i = i /\ i <> "".
+Proof.
+  intros i H. unfold idok, textok in H. split_and. rewrite plain_allc in *.
+  match goal with H : String.eqb _ _ = true |- _ => apply String.eqb_eq in H end.
+  match goal with H : negb (String.eqb _ _) = true |- _ => apply negb_true_iff in H; apply String.eqb_neq in H end.
+  repeat split; assumption.
+Qed.
+
+Lemma allc_rep : forall P sep m, allc P sep = true -> allc P (rep sep m) = true.
+Proof. intros P sep m H. induction m as [|m IH]; [reflexivity|]. cbn [rep]. rewrite allc_app, H, IH. reflexivity. Qed.
+
+Lemma lay_blank : forall w, allc layc w = true -> py_strip (remove_char "," (keepm w)) = "".
+Proof.
+  intros w H. apply strip_blank. rewrite keepm_flat, remove_char_flat.
+  apply (allc_flat layc); [intro c; enum c | exact H].
+Qed.
+
+(* a plain, stripped, comma-free text followed by list punctuation, as a piece of the vector form *)
+Lemma piece_clean : forall i w, allc plain_char i = true -> no_char "," i = true -> py_strip i = i -> allc layc w = true ->
+  py_strip (remove_char "," (mass_replace (i ++ flat gc w))) = i.
+Proof.
+  intros i w Hi Hc Hs Hw. rewrite <- (G_plain i Hi) at 1. rewrite <- flat_app, mass_G by cls.
+  rewrite keepm_app, (keepm_plain _ Hi), remove_char_app, (remove_char_none _ _ Hc).
+  unfold py_strip. rewrite rstrip_blank; [exact Hs|].
+  rewrite keepm_flat, remove_char_flat. apply (allc_flat layc); [intro c; enum c | exact Hw].
+Qed.
+
+(* ---------------------------------------------------------------- SField, SChildren *)
+
+Lemma vstep_field : forall ws k v acc, wsok ws = true -> keyok k = true -> valok v = true ->
+  vstep acc (repr_body SQ (ws ++ k ++ "=" ++ v)) = seg_fields (SField ws k v) acc.
+Proof.
+  intros ws k v acc Hw Hk Hv. destruct (wk_facts _ _ Hw Hk) as [Hwk [Hm Hs]].
+  destruct (valok_cases _ Hv) as [Hp [Hkeep [Hu1 [Hu2 Hu3]]]].
+  rewrite <- (sapp_assoc ws k). rewrite vstep_eq; [|ncr|ncr].
+  rewrite Hm, Hs, (repr_pq v Hp), (mass_pq v Hp), Hkeep, (remove_char_none _ _ Hu2), Hu3, ltb_len.
+  assert (E : contains "<" v = false) by (rewrite contains1; apply negb_false_iff; nc).
+  rewrite E. cbn [andb seg_fields]. destruct (String.eqb (unq v) ""); reflexivity.
+Qed.
+
+Lemma vstep_lay : forall ws k w acc, wsok ws = true -> keyok k = true -> allc layc w = true ->
+  vstep acc (repr_body SQ (ws ++ k ++ "=" ++ w)) = acc.
+Proof.
+  intros ws k w acc Hw Hk Hl. destruct (wk_facts _ _ Hw Hk) as [Hwk [Hm Hs]].
+  rewrite <- (sapp_assoc ws k). rewrite vstep_eq; [|ncr|ncr].
+  rewrite mass_repr by (rewrite alpha_allc; cls). rewrite (lay_blank _ Hl). reflexivity.
+Qed.
+
+(* ---------------------------------------------------------------- SRefs *)
+
+Fixpoint refs_tail (sep c : string) (r : list string) : string :=
+  match r with [] => c | j :: r' => sep ++ "<" ++ j ++ ">" ++ refs_tail sep c r' end.
+
+Lemma refs_text_tail : forall sep c r i, refs_text sep (i :: r) ++ c = "<" ++ i ++ ">" ++ refs_tail sep c r.
+Proof.
+  intros sep c r. induction r as [|j r IH]; intro i.
+  - change (refs_text sep [i]) with ("<" ++ i ++ ">"). cbn [refs_tail]. rewrite !sapp_assoc. reflexivity.
+  - change (refs_text sep (i :: j :: r)) with ("<" ++ i ++ ">" ++ sep ++ refs_text sep (j :: r)).
+    rewrite !sapp_assoc, IH. reflexivity.
+Qed.
+
+Lemma refs_tail_cls : forall sep c r, allc layc sep = true -> allc layc c = true -> forallb idok r = true ->
+  allc refc (refs_tail sep c r) = true.
+Proof.
+  intros sep c r Hs Hc. induction r as [|j r IH]; intro H; cbn [refs_tail]; [cls|].
+  cbn [forallb] in H. apply andb_true_iff in H. destruct H as [Hj Hr]. destruct (idok_parts _ Hj) as [Hj1 _].
+  specialize (IH Hr). cls.
+Qed.
+
+Fixpoint pieces (sep c i : string) (r : list string) : list string :=
+  match r with [] => [i ++ flat gc c] | j :: r' => (i ++ flat gc sep) :: pieces sep c j r' end.
+
+Lemma split_pieces : forall sep c r i, allc layc sep = true -> allc layc c = true -> allc plain_char i = true -> forallb idok r = true ->
+  split_on "<" (flat gc (i ++ String ">" (refs_tail sep c r))) = pieces sep c i r.
+Proof.
+  intros sep c r. induction r as [|j r IH]; intros i Hs Hc Hi Hr; cbn [refs_tail pieces].
+  - rewrite (flat_app gc i), (G_plain i Hi). cbn [flat]. change (gc ">") with "". cbn [append].
+    apply split_on_none. rewrite no_char_app. apply andb_true_iff. split; [nc|].
+    apply (no_char_flat layc); [intro x; enum x | exact Hc].
+  - cbn [forallb] in Hr. apply andb_true_iff in Hr. destruct Hr as [Hj Hr]. destruct (idok_parts _ Hj) as [Hj1 _].
+    cbn [append]. rewrite (flat_app gc i), (G_plain i Hi). cbn [flat]. change (gc ">") with "". cbn [append].
+    rewrite (flat_app gc sep). cbn [flat]. change (gc "<") with "<". cbn [append].
+    rewrite <- sapp_assoc, split_on_app, (IH j Hs Hc Hj1 Hr), split_on_none; [reflexivity|].
+    rewrite no_char_app. apply andb_true_iff. split; [nc|].
+    apply (no_char_flat layc); [intro x; enum x | exact Hs].
+Qed.
+
+Definition ref_step (k : string) (st : list (string * pv) * nat) (i : string) : list (string * pv) * nat :=
+  (upsert String.eqb (k ++ "_" ++ dec (snd st)) (PStr i) (fst st), S (snd st)).
+
+Lemma vec_step_piece : forall K k st i w, mass_replace K = k -> idok i = true -> allc layc w = true ->
+  vec_step K st (i ++ flat gc w) = ref_step k st i.
+Proof.
+  intros K k st i w HK Hi Hw. destruct (idok_parts _ Hi) as [H1 [H2 [H3 H4]]].
+  unfold vec_step. rewrite (piece_clean i w H1 H2 H3 Hw), HK, ltb_len.
+  apply String.eqb_neq in H4. rewrite H4. reflexivity.
+Qed.
+
+Lemma fold_pieces : forall K k sep c r i st, mass_replace K = k -> allc layc sep = true -> allc layc c = true ->
+  idok i = true -> forallb idok r = true ->
+  fold_left (vec_step K) (pieces sep c i r) st = fold_left (ref_step k) (i :: r) st.
+Proof.
+  intros K k sep c r. induction r as [|j r IH]; intros i st HK Hs Hc Hi Hr; cbn [pieces fold_left].
+  - rewrite (vec_step_piece K k st i c HK Hi Hc). reflexivity.
+  - cbn [forallb] in Hr. apply andb_true_iff in Hr. destruct Hr as [Hj Hr].
+    rewrite (vec_step_piece K k st i sep HK Hi Hs). exact (IH j _ HK Hs Hc Hj Hr).
+Qed.
+
+Lemma nonblank_ltb : forall s, s <> "" -> Nat.ltb 0 (String.length s) = true.
+Proof. intros s H. destruct s; [congruence | reflexivity]. Qed.
+
+Lemma repr_lt : repr_char SQ "<" = "<". Proof. reflexivity. Qed.
+Lemma repr_gt : repr_char SQ ">" = ">". Proof. reflexivity. Qed.
+
+Lemma vstep_refs : forall ws k o sep c ids acc,
+  wsok ws = true -> keyok k = true -> layok o = true -> layok sep = true -> layok c = true -> forallb idok ids = true ->
+  vstep acc (repr_body SQ (ws ++ k ++ "=" ++ o ++ refs_text sep ids ++ c)) = seg_fields (SRefs ws k o sep c ids) acc.
+Proof.
+  intros ws k o sep c ids acc Hw Hk Ho Hs Hc Hi. rewrite layok_allc in *.
+  destruct ids as [|i r].
+  - change (refs_text sep []) with "". cbn [append seg_fields fold_left fst].
+    apply vstep_lay; [assumption | assumption | cls].
+  - destruct (wk_facts _ _ Hw Hk) as [Hwk [Hm Hst]].
+    cbn [forallb] in Hi. apply andb_true_iff in Hi. destruct Hi as [Hi Hr].
+    destruct (idok_parts _ Hi) as [Hi1 [Hi2 [Hi3 Hi4]]].
+    pose proof (refs_tail_cls sep c r Hs Hc Hr) as Ht.
+    rewrite refs_text_tail. set (tl := refs_tail sep c r) in *.
+    assert (HT : allc refc (o ++ "<" ++ i ++ ">" ++ tl) = true) by cls.
+    rewrite <- (sapp_assoc ws k). rewrite vstep_eq; [|ncr|ncr].
+    (* the emptiness test *)
+    assert (E1 : Nat.ltb 0 (String.length (py_strip (remove_char "," (mass_replace (repr_body SQ (o ++ "<" ++ i ++ ">" ++ tl)))))) = true).
+    { apply nonblank_ltb. rewrite mass_repr by (rewrite alpha_allc; cls).
+      rewrite (keepm_app o), (keepm_app "<"), (keepm_app i), (keepm_plain _ Hi1). change (keepm "<") with "". cbn [append].
+      rewrite !remove_char_app, (remove_char_none _ _ Hi2).
+      destruct (strip_fix _ Hi3) as [_ Hl]. destruct (lstrip_head i Hl Hi4) as [ch [i' [Ei Ech]]]. rewrite Ei. cbn [append].
+      apply strip_nonblank. exact Ech. }
+    assert (E2 : contains "<" (repr_body SQ (o ++ "<" ++ i ++ ">" ++ tl)) = true).
+    { rewrite contains1. apply negb_true_iff. apply (repr_has _ repr_lt). cbn [append]. apply nc_mid. }
+    assert (E3 : contains ">" (repr_body SQ (o ++ "<" ++ i ++ ">" ++ tl)) = true).
+    { rewrite contains1. apply negb_true_iff. apply (repr_has _ repr_gt).
+      rewrite <- (sapp_assoc o), <- (sapp_assoc (o ++ "<")). cbn [append]. apply nc_mid. }
+    rewrite E1, E2, E3. cbn [andb].
+    rewrite vector_entries_eq. subst tl. rewrite (flat_app gc o). cbn [append flat]. change (gc "<") with "<".
+    cbn [append]. rewrite split_on_app, (split_pieces sep c r i Hs Hc Hi1 Hr).
+    rewrite split_on_none by (apply (no_char_flat layc); [intro x; enum x | exact Ho]).
+    cbn [app fold_left].
+    assert (E4 : vec_step (repr_body SQ (ws ++ k)) (acc, 0) (flat gc o) = (acc, 0)).
+    { unfold vec_step. change (flat gc o) with ("" ++ flat gc o). rewrite (piece_clean "" o); reflexivity || assumption. }
+    rewrite E4, (fold_pieces _ k sep c r i (acc, 0) Hm Hs Hc Hi Hr). reflexivity.
+Qed.
+
+(* ---------------------------------------------------------------- L2 *)
+
+Definition seg_body (s : seg) : string :=
+  match s with
+  | SField ws k v => ws ++ k ++ "=" ++ v
+  | SRefs ws k o sep c ids => ws ++ k ++ "=" ++ o ++ refs_text sep ids ++ c
+  | SChildren ws k o sep c n => ws ++ k ++ "=" ++ o ++ rep sep (n - 1) ++ c
+  end.
+
+Lemma seg_text_body : forall s, seg_text s = seg_body s ++ ";".
+Proof. destruct s; cbn [seg_text seg_body]; rewrite !sapp_assoc; reflexivity. Qed.
+
+Lemma vstep_seg : forall s acc, seg_ok s = true -> vstep acc (repr_body SQ (seg_body s)) = seg_fields s acc.
+Proof.
+  intros s acc H. destruct s as [ws k v | ws k o sep c ids | ws k o sep c n]; cbn [seg_ok] in H; split_and; cbn [seg_body].
+  - apply vstep_field; assumption.
+  - apply vstep_refs; assumption.
+  - cbn [seg_fields]. apply vstep_lay; try assumption. rewrite layok_allc in *.
+    repeat (rewrite allc_app; apply andb_true_iff; split); try assumption. apply allc_rep. assumption.
+Qed.
+
+Lemma refs_text_cls : forall sep ids, allc layc sep = true -> forallb idok ids = true -> allc refc (refs_text sep ids) = true.
+Proof.
+  intros sep ids Hs Hi. destruct ids as [|i r]; [reflexivity|].
+  cbn [forallb] in Hi. apply andb_true_iff in Hi. destruct Hi as [Hi Hr]. destruct (idok_parts _ Hi) as [Hi1 _].
+  assert (E : refs_text sep (i :: r) = refs_text sep (i :: r) ++ "") by (symmetry; apply sapp_nil_r).
+  rewrite E, refs_text_tail. pose proof (refs_tail_cls sep "" r Hs eq_refl Hr) as Ht. cls.
+Qed.
+
+Lemma seg_body_semi : forall s, seg_ok s = true -> no_char ";" (repr_body SQ (seg_body s)) = true.
+Proof.
+  intros s H. destruct s as [ws k v | ws k o sep c ids | ws k o sep c n]; cbn [seg_ok] in H; cbn [seg_body].
+  - apply andb_true_iff in H. destruct H as [H Hv]. apply andb_true_iff in H. destruct H as [Hw Hk].
+    destruct (wk_facts _ _ Hw Hk) as [Hwk _]. destruct (valok_cases _ Hv) as [Hp _].
+    rewrite <- (sapp_assoc ws k), (repr_body_app SQ (ws ++ k)), (repr_body_app SQ "="), !no_char_app.
+    repeat (apply andb_true_iff; split); first [ncr | reflexivity].
+  - apply andb_true_iff in H. destruct H as [H Hi]. apply andb_true_iff in H. destruct H as [H Hc].
+    apply andb_true_iff in H. destruct H as [H Hs]. apply andb_true_iff in H. destruct H as [H Ho].
+    apply andb_true_iff in H. destruct H as [Hw Hk]. rewrite layok_allc in *.
+    destruct (wk_facts _ _ Hw Hk) as [Hwk _]. pose proof (refs_text_cls sep ids Hs Hi) as Hx.
+    assert (Hy : allc valc (o ++ refs_text sep ids ++ c) = true) by cls.
+    rewrite <- (sapp_assoc ws k), (repr_body_app SQ (ws ++ k)), (repr_body_app SQ "="), !no_char_app.
+    repeat (apply andb_true_iff; split); first [ncr | reflexivity].
+  - apply andb_true_iff in H. destruct H as [H Hc].
+    apply andb_true_iff in H. destruct H as [H Hs]. apply andb_true_iff in H. destruct H as [H Ho].
+    apply andb_true_iff in H. destruct H as [Hw Hk]. rewrite layok_allc in *.
+    destruct (wk_facts _ _ Hw Hk) as [Hwk _]. pose proof (allc_rep layc sep (n - 1) Hs) as Hx.
+    assert (Hy : allc valc (o ++ rep sep (n - 1) ++ c) = true) by cls.
+    rewrite <- (sapp_assoc ws k), (repr_body_app SQ (ws ++ k)), (repr_body_app SQ "="), !no_char_app.
+    repeat (apply andb_true_iff; split); first [ncr | reflexivity].
+Qed.
+
+Lemma repr_segs : forall segs tail,
+  repr_body SQ (segs_text segs ++ tail) = cat (map (fun s => repr_body SQ (seg_body s) ++ ";") segs) ++ repr_body SQ tail.
+Proof.
+  intros segs tail. unfold segs_text. rewrite concat_empty_cat, repr_body_app, repr_body_cat, map_map.
+  f_equal. f_equal. apply map_ext. intro s. rewrite seg_text_body, repr_body_app. reflexivity.
+Qed.
+
+Lemma fold_segs : forall segs tailr acc, forallb seg_ok segs = true -> contains "=" tailr = false ->
+  fold_left vstep (map (fun s => repr_body SQ (seg_body s)) segs ++ [tailr])%list acc = fold_left (fun acc s => seg_fields s acc) segs acc.
+Proof.
+  induction segs as [|s segs IH]; intros tailr acc H Ht.
+  - cbn [map app fold_left]. unfold vstep. rewrite Ht. reflexivity.
+  - cbn [forallb] in H. apply andb_true_iff in H. destruct H as [H1 H2].
+    cbn [map app fold_left]. rewrite (vstep_seg s acc H1). exact (IH tailr _ H2 Ht).
+Qed.
+
+Lemma values_segments : forall (segs : list seg) (tail : string),
+  forallb seg_ok segs = true -> wsok tail = true ->
+  values_from_outside (repr_body SQ (segs_text segs ++ tail)) = Some (segs_fields segs).
+Proof.
+  intros segs tail Hs Ht. rewrite wsok_allc in Ht. rewrite repr_segs.
+  assert (T1 : no_char ";" (repr_body SQ tail) = true) by ncr.
+  assert (T2 : no_char ":" (repr_body SQ tail) = true) by ncr.
+  assert (T3 : contains "=" (repr_body SQ tail) = false).
+  { rewrite contains1. apply negb_false_iff. ncr. }
+  rewrite vfo_else.
+  - rewrite (split_on_cat seg ";" (fun s => repr_body SQ (seg_body s))).
+    + rewrite (split_on_none _ _ T1). unfold segs_fields. f_equal. apply fold_segs; assumption.
+    + intros s Hin. apply seg_body_semi. rewrite forallb_forall in Hs. exact (Hs s Hin).
+  - destruct segs as [|s segs].
+    + cbn [map cat append]. rewrite T2. apply andb_false_r.
+    + cbn [map cat]. rewrite !no_char_app. change (no_char ";" ";") with false. rewrite andb_false_r. reflexivity.
+Qed.
+Print Assumptions values_segments.
